@@ -29,7 +29,9 @@ THEOREMS_BY_PROP = {
             "DepLogic.C08.compatibility_perm"],
     "C16": ["DepLogic.C16.widen_keeps", "DepLogic.C16.widen_keeps_cuts", "DepLogic.C16.widen_or_keeps", "DepLogic.C16.and_isEmpty_comm", "DepLogic.C16.compare_refl",
             "DepLogic.C16.compare_incompatible_symm", "DepLogic.C16.compare_not_higher_both",
-            "DepLogic.C16.manylinux_nested", "DepLogic.C16.beq_refl", "DepLogic.C16.beq_symm"],
+            "DepLogic.C16.manylinux_nested", "DepLogic.C16.beq_refl", "DepLogic.C16.beq_symm",
+            "DepLogic.C16.platCompare_nested", "DepLogic.C16.platCompare_nested_higher", "DepLogic.C16.compare_nested",
+            "DepLogic.C16.nested_needs_sameLine"],
     "C18": ["DepLogic.C18.wheel_roundtrip", "DepLogic.C18.bad_extension", "DepLogic.C18.bad_part_count",
             "DepLogic.C18.aliases", "DepLogic.C18.splitC_joinDash", "DepLogic.C18.platform_roundtrip",
             "DepLogic.C18.manylinux_roundtrip", "DepLogic.C18.macos_roundtrip", "DepLogic.Lex.natOfDigits_toString"],
